@@ -93,6 +93,22 @@ type concView struct {
 	env   *concEnv
 	own   []string
 	store queue.Store // this caller's own handle on the database (nil: the shared one)
+	sel   []string    // reference only: ids selected by the first half of a by-filter call
+}
+
+// By-filter operator calls select and then update, in two steps, and the
+// properties do not ask for more: C14 speaks about which messages a call touches
+// for given queue contents, not about atomicity against other callers. The
+// reference therefore executes such a call as two atomic calls - a selection
+// (newest first, within the states the operation is defined for, as the
+// documentation says) and the id-based operation on what was selected - which
+// other callers' calls may separate. What has to hold in every interleaving is
+// what the id-based operation guarantees: only messages in a state the
+// operation covers at the moment of the update are changed and counted.
+var filterOpStates = map[string][]queue.State{
+	"cancel_f":  {queue.StateQueued, queue.StateLeased, queue.StateDead},
+	"requeue_f": {queue.StateDead, queue.StateCanceled},
+	"resume_f":  {queue.StateCanceled},
 }
 
 func (v *concView) leaseID(ref int) string {
@@ -236,6 +252,58 @@ func (v *concView) exec(s Step, prefix bool) string {
 	case "dlq_delete":
 		r, err := st.DeleteDead(queue.DeadDeleteRequest{IDs: s.IDLits})
 		return fmt.Sprintf("dlq_delete %v -> %d %s", s.IDLits, r.Deleted, concErr(err))
+	case "cancel_f", "requeue_f", "resume_f":
+		req := queue.MessageManageFilterRequest{Route: s.Route, State: queue.State(s.Reason)}
+		var n int
+		var err error
+		switch s.Op {
+		case "cancel_f":
+			var r queue.MessageCancelResponse
+			r, err = st.CancelMessagesByFilter(req)
+			n = r.Canceled
+		case "requeue_f":
+			var r queue.MessageRequeueResponse
+			r, err = st.RequeueMessagesByFilter(req)
+			n = r.Requeued
+		case "resume_f":
+			var r queue.MessageResumeResponse
+			r, err = st.ResumeMessagesByFilter(req)
+			n = r.Resumed
+		}
+		return fmt.Sprintf("%s route=%q state=%q -> %d %s", s.Op, s.Route, s.Reason, n, concErr(err))
+	case "cancel_f.select", "requeue_f.select", "resume_f.select":
+		op := strings.TrimSuffix(s.Op, ".select")
+		resp, err := st.ListMessages(queue.MessageListRequest{Route: s.Route, State: queue.State(s.Reason), Order: queue.MessageOrderDesc})
+		v.sel = nil
+		for _, it := range resp.Items {
+			for _, ok := range filterOpStates[op] {
+				if it.State == ok {
+					v.sel = append(v.sel, it.ID)
+				}
+			}
+		}
+		return fmt.Sprintf("%s -> %d %s", s.Op, len(v.sel), concErr(err))
+	case "cancel_f.apply", "requeue_f.apply", "resume_f.apply":
+		op := strings.TrimSuffix(s.Op, ".apply")
+		var n int
+		var err error
+		if len(v.sel) > 0 {
+			switch op {
+			case "cancel_f":
+				var r queue.MessageCancelResponse
+				r, err = st.CancelMessages(queue.MessageCancelRequest{IDs: v.sel})
+				n = r.Canceled
+			case "requeue_f":
+				var r queue.MessageRequeueResponse
+				r, err = st.RequeueMessages(queue.MessageRequeueRequest{IDs: v.sel})
+				n = r.Requeued
+			case "resume_f":
+				var r queue.MessageResumeResponse
+				r, err = st.ResumeMessages(queue.MessageResumeRequest{IDs: v.sel})
+				n = r.Resumed
+			}
+		}
+		return fmt.Sprintf("%s route=%q state=%q -> %d %s", op, s.Route, s.Reason, n, concErr(err))
 	case "stats":
 		stt, err := st.Stats()
 		return fmt.Sprintf("stats -> total=%d %v %s", stt.Total, fmt.Sprint(stt.ByState), concErr(err))
@@ -330,6 +398,28 @@ type concRec struct {
 	Step      Step
 	Call, Ret int // scheduler step stamps; Ret < 0: never returned (or returned after the crash instant)
 	Out       string
+	NoOut     bool // first half of a split by-filter call: nothing to compare
+}
+
+// splitFilterCalls: the records as the reference executes them (see
+// filterOpStates): a by-filter call becomes selection + application, both
+// inside the real call's interval.
+func splitFilterCalls(recs []*concRec) []*concRec {
+	var out []*concRec
+	for _, r := range recs {
+		if _, ok := filterOpStates[r.Step.Op]; !ok {
+			c := *r
+			c.Idx = 2 * r.Idx
+			out = append(out, &c)
+			continue
+		}
+		a, b := *r, *r
+		a.Idx, b.Idx = 2*r.Idx, 2*r.Idx+1
+		a.Step.Op, b.Step.Op = r.Step.Op+".select", r.Step.Op+".apply"
+		a.NoOut = true
+		out = append(out, &a, &b)
+	}
+	return out
 }
 
 func (r *concRec) pending() bool { return r.Ret < 0 }
@@ -838,7 +928,7 @@ func runConcOnce(p *Program, prefix []Step, block Step, cache map[string]concRef
 
 	// linearizability against the sequential behaviour
 	var done, inflight []*concRec
-	for _, r := range recs {
+	for _, r := range splitFilterCalls(recs) {
 		if r.pending() {
 			inflight = append(inflight, r)
 		} else {
@@ -873,7 +963,7 @@ func runConcOnce(p *Program, prefix []Step, block Step, cache map[string]concRef
 			}
 			why := ""
 			for i, r := range o {
-				if !r.pending() && ref.outs[i] != r.Out {
+				if !r.pending() && !r.NoOut && ref.outs[i] != r.Out {
 					why = fmt.Sprintf("t%d.%d sequentially gives {%s}", r.Task, r.Idx, ref.outs[i])
 					break
 				}
@@ -893,7 +983,7 @@ func runConcOnce(p *Program, prefix []Step, block Step, cache map[string]concRef
 	res.probe(fmt.Sprintf("conc.orders_tried.%d", min(tried, 9)))
 	res.SimTime = int64(clock.Peek().Sub(Epoch))
 	if !isExplained {
-		props, rule := "C03,C04,C05,C02,C12", "conc.nonlinearizable"
+		props, rule := "C03,C04,C05,C02,C12,C14", "conc.nonlinearizable"
 		if crashed {
 			props, rule = "C01,C05", "conc.crash.unexplained"
 		}
@@ -1034,7 +1124,7 @@ func GenConcProgram(t *rapid.T, prof ConcProfile) *Program {
 		p.Steps = append(p.Steps, Step{Op: "dequeue", Route: "/r0", Batch: 1, TTL: rapid.SampledFrom([]time.Duration{30 * time.Second, 30 * time.Second, 5 * time.Millisecond}).Draw(t, "c.ttl")})
 		p.Steps = append(p.Steps, Step{Op: "advance", D: rapid.SampledFrom([]time.Duration{time.Millisecond, 6 * time.Millisecond, 20 * time.Millisecond, 2 * time.Second}).Draw(t, "c.adv")})
 		mine := []string{"ack", "nack", "dead", "extend", "ack_batch", "nack_batch"}
-		theirs := []string{"cancel", "requeue", "ack", "nack", "dead", "extend", "dequeue", "dequeue", "ack_batch", "cancel+requeue", "list"}
+		theirs := []string{"cancel", "requeue", "ack", "nack", "dead", "extend", "dequeue", "dequeue", "ack_batch", "cancel+requeue", "list", "cancel_f", "requeue_f", "cancel_f+requeue_f"}
 		mk := func(op, label string) []Step {
 			switch op {
 			case "ack", "dead":
@@ -1047,6 +1137,10 @@ func GenConcProgram(t *rapid.T, prof ConcProfile) *Program {
 				return []Step{{Op: op, IDLits: []string{"m1"}}}
 			case "cancel+requeue":
 				return []Step{{Op: "cancel", IDLits: []string{"m1"}}, {Op: "requeue", IDLits: []string{"m1"}}}
+			case "cancel_f", "requeue_f":
+				return []Step{{Op: op, Route: rapid.SampledFrom([]string{"", "/r0"}).Draw(t, label+".froute"), Reason: rapid.SampledFrom([]string{"", "", "leased", "queued", "dead", "canceled"}).Draw(t, label+".fstate")}}
+			case "cancel_f+requeue_f":
+				return []Step{{Op: "cancel_f", Route: "/r0"}, {Op: "requeue_f", Route: "/r0"}}
 			case "dequeue":
 				return []Step{{Op: "dequeue", Route: "/r0", Batch: rapid.IntRange(1, 2).Draw(t, label+".b"), TTL: 30 * time.Second}}
 			}
@@ -1068,7 +1162,7 @@ func GenConcProgram(t *rapid.T, prof ConcProfile) *Program {
 		k := rapid.IntRange(1, 3).Draw(t, "t.n")
 		for j := 0; j < k; j++ {
 			var s Step
-			opset := []string{"enqueue", "enqueue", "dequeue", "dequeue", "dequeue", "ack", "ack", "nack", "extend", "dead", "ack_batch", "nack_batch", "cancel", "requeue", "stats", "list", "enqueue_batch"}
+			opset := []string{"enqueue", "enqueue", "dequeue", "dequeue", "dequeue", "ack", "ack", "nack", "extend", "dead", "ack_batch", "nack_batch", "cancel", "requeue", "stats", "list", "enqueue_batch", "cancel_f", "requeue_f", "resume_f"}
 			if prof.Limits > 0 {
 				opset = []string{"enqueue", "enqueue", "enqueue", "enqueue_batch", "enqueue_batch", "dequeue", "ack", "nack", "cancel", "requeue", "stats"}
 			}
@@ -1090,6 +1184,8 @@ func GenConcProgram(t *rapid.T, prof ConcProfile) *Program {
 				s = Step{Op: op, LeaseRef: intp(rapid.IntRange(0, 2).Draw(t, "t.lr")), Delay: rapid.SampledFrom([]time.Duration{0, time.Second, 30 * time.Second}).Draw(t, "t.delay")}
 			case "ack_batch", "nack_batch":
 				s = Step{Op: op, LeaseRefs: []int{rapid.IntRange(0, 2).Draw(t, "t.lr1"), rapid.IntRange(0, 3).Draw(t, "t.lr2")}, Delay: time.Second}
+			case "cancel_f", "requeue_f", "resume_f":
+				s = Step{Op: op, Route: rapid.SampledFrom([]string{"", "/r0", "/r1"}).Draw(t, "t.froute"), Reason: rapid.SampledFrom([]string{"", "", "leased", "queued", "dead", "canceled", "delivered"}).Draw(t, "t.fstate")}
 			case "cancel", "requeue":
 				s = Step{Op: op}
 				if len(ids) > 0 {
